@@ -20,6 +20,7 @@ EXPLANATION = (
     "NOT decided: the every-nanosecond equality of samples and schedule (runtime arrays). SIB/GUARD (added): the per-atom window is [s.ti (or max(s.ti, mask end) for a masked atom in XY) : s.tf] of the slot being rendered; extend_duration pads with the off-detuning of the very block whose tf it tested; the SLM mask window returned by find_slm_mask_times is replaced only by a pulse that starts earlier. Round 3 (added): amp/det/phase of a channel are added (+=), never assigned, into the nested dict (several channels per basis/atom); INPLACE: no in-place operator on a set/list/dict that is merely an alias of a field (rendering is read-only)."
     " Round 5 (added): every phase statement of to_nested_dict adds `cs.phase` masked by the channel's own non-zero pulse slots; the per-target branch adds the detuning of an open EOM block after the last slot; nothing handed to ChannelSamples is a mutable container of the schedule itself."
     ' Round 6 (added after the fifth independent round of breaking changes): the samples handed out own their data also one level down (a shallow copy of a list of mutable objects is not a copy); the EOM tail after the last slot runs over slots[-1].targets, the slot whose tf starts the tail.'
+    ' Round 7 (added after the sixth, smaller round of breaking changes): the phase mask of a slot is decided on the amplitude window of that slot (mask[s.ti:s.tf] = any(amp[s.ti:s.tf] != 0)).'
 )
 ASSUMPTIONS = ["accumulating statements are read off the symbolic normal form (pstatic/sym.py): temporaries, loop-variable names and conditional forms do not matter", "arrays created by identical expressions are told apart by their creation order and by the role under which they are returned"]
 
